@@ -31,6 +31,7 @@ type c14Case struct {
 	MaxLen int    `json:"maxlen"` // histories up to this length
 	Prefix []int  `json:"prefix"` // satisfier level: fixed prefix (shards the enumeration)
 	Hist   []int  `json:"hist"`   // process level: the history
+	Bal    int    `json:"bal,omitempty"` // satisfier level: every ordering of the history in which each definition is matched exactly Bal times
 }
 
 func c14Defs(tier string) (int, int) {
@@ -56,6 +57,19 @@ func c14Cases(tier string, seed uint64) []fw.Case {
 			// histories shorter than the prefix
 			c := c14Case{Level: "satisfier", Kind: kind, Defs: d, MaxLen: 1}
 			c.Name = fmt.Sprintf("satisfier/%s/d%d/short", kind, d)
+			cs = append(cs, fw.MkCase("satisfier", &c))
+		}
+	}
+	// balanced histories: every ordering of "each definition matched exactly k times" (longer than the
+	// exhaustive bound: d*k events; many partial sets open at once, completed and removed in every order)
+	bal := [][2]int{{2, 4}, {2, 5}, {2, 6}, {3, 3}, {3, 4}, {4, 2}}
+	if tier == "thorough" {
+		bal = append(bal, [2]int{2, 8}, [2]int{3, 5}, [2]int{4, 3}, [2]int{5, 2})
+	}
+	for _, kind := range []string{"parallel", "throw"} {
+		for _, dk := range bal {
+			c := c14Case{Level: "satisfier", Kind: kind, Defs: dk[0], Bal: dk[1]}
+			c.Name = fmt.Sprintf("satisfier/%s/d%d/balanced%d", kind, dk[0], dk[1])
 			cs = append(cs, fw.MkCase("satisfier", &c))
 		}
 	}
@@ -245,6 +259,41 @@ func c14Check(kind string, d int, h []int, v *fw.V) (string, string) {
 
 func c14Satisfier(c *c14Case, v *fw.V) {
 	n := 0
+	if c.Bal > 0 {
+		left := make([]int, c.Defs)
+		for i := range left {
+			left[i] = c.Bal
+		}
+		h := make([]int, 0, c.Defs*c.Bal)
+		stop := false
+		var rec func()
+		rec = func() {
+			if stop {
+				return
+			}
+			if len(h) == c.Defs*c.Bal {
+				n++
+				if rule, msg := c14Check(c.Kind, c.Defs, h, v); rule != "" {
+					v.Violate(rule, fmt.Sprintf("%s-defs=%d", c.Kind, c.Defs), "%s", msg)
+					stop = true
+				}
+				return
+			}
+			for e := 0; e < c.Defs; e++ {
+				if left[e] > 0 {
+					left[e]--
+					h = append(h, e)
+					rec()
+					h = h[:len(h)-1]
+					left[e]++
+				}
+			}
+		}
+		rec()
+		v.Add("histories", n)
+		v.Add("balanced-histories", n)
+		return
+	}
 	var rec func(h []int)
 	stop := false
 	rec = func(h []int) {
